@@ -69,6 +69,7 @@ SPEC = {
             "SetOperatorStatusReachTime); the region disappears; in every third sequence also foreign events (peer "
             "appears/disappears, leader moves, range changes) and operators created with another epoch. "
             "every fourth sequence is a faithful walk: builder-made operators for all three feature levels (joint on / off / unsupported, the last giving RemovePeer+AddLearner on one store) with targets that change roles in place are executed step by step, with a heartbeat after every execution while the new peer is still pending and another after it caught up, nothing else touching the region - no operator may be cancelled there. "
+            "`influence` events (GetOpInfluence: statuses turn lazily) and the shape 'operator ends lazily while registered, then a higher-priority operator is admitted for the same region before the next dispatch'; the record of a region is observed even while another operator runs there. "
             "Concurrent stream: `race` events (about every 12th event) start a never-offered operator and let 2-6 goroutines issue competing end transitions (Cancel / Replace / CheckTimeout / CheckSuccess) at once, 10 trials on fresh copies; exactly one may succeed and the remembered status must be the final one. "
             "non-trivial = commands were sent, an operator finished or was cancelled, heartbeats and executions "
             "happened; distinct = distinct op sequence",
